@@ -1,6 +1,6 @@
 """C07 - names in generated code denote the declaration Dezyne's scoping rules select.
 
-Space : namespaces {global, A, A.B, C}.
+Space : namespaces {global, A, A.B, C, AB} (AB = unrelated sibling whose name has A as a string prefix).
   (a) port type: every assignment of {absent, interface, enum decoy} to the four scopes for the
       simple name X (3^4) x component scope {global, A, A.B} x spelling {X, B.X, A.B.X, A.X, C.X};
   (b) formal types: interface I in {global, A, A.B}; externs named T - each with its own C++ data
@@ -25,8 +25,8 @@ from .. import build as B
 
 PID = 'C07'
 
-SCOPES = [[], ['A'], ['A', 'B'], ['C']]
-SPELL_X = [['X'], ['B', 'X'], ['A', 'B', 'X'], ['A', 'X'], ['C', 'X']]
+SCOPES = [[], ['A'], ['A', 'B'], ['C'], ['AB']]   # 'AB': unrelated sibling whose name has 'A' as STRING prefix
+SPELL_X = [['X'], ['B', 'X'], ['A', 'B', 'X'], ['A', 'X'], ['C', 'X'], ['AB', 'X']]
 KIND3 = ['absent', 'real', 'decoy']
 
 
@@ -124,9 +124,8 @@ def model_b(case):
                   ['Release', 'in', ['void'], [['b', spell, 'inout']]]] + events
     doc += nest(itf_scope, [['interface', 'I', [['enum', 'Res', ['Ok', 'No']]], events]])
     direction = case.get('dir', 'provides')
-    doc += nest(['A', 'B'], [['component', 'Comp', [['p', ['I'] if itf_scope != ['C'] else ['C', 'I'],
-                                                      direction, False]]]])
-    return {'doc': doc, 'encapsulee': ['A', 'B', 'Comp'], 'file': 'M.dzn'}
+    doc += nest(itf_scope, [['component', 'Comp', [['p', ['I'], direction, False]]]])
+    return {'doc': doc, 'encapsulee': itf_scope + ['Comp'], 'file': 'M.dzn'}
 
 
 PARAM_RE = re.compile(r'\.(?:in|out)\.(\w+) = \[&(?:, identifier)?\]\(([^)]*)\) \{')
@@ -213,7 +212,7 @@ def judge_c(case):
 
 # ---- (d) encapsulee -------------------------------------------------------------------------
 
-SPELL_D = [['Comp'], ['A', 'Comp'], ['A', 'B', 'Comp'], ['B', 'Comp'], ['C', 'Comp']]
+SPELL_D = [['Comp'], ['A', 'Comp'], ['A', 'B', 'Comp'], ['B', 'Comp'], ['C', 'Comp'], ['AB', 'Comp']]
 
 
 def judge_d(case):
@@ -234,8 +233,8 @@ def judge_d(case):
         accessor = re.findall(r'Provides(\w+)\(', header)
         wantacc = 'P_' + scope_tag(list(hits[0].scope))
         ns_line = re.findall(r'^namespace ?([\w:]*) \{', header, re.M)
-        want_ns = '::'.join(hits[0].scope)
-        if member != [want] or accessor != [wantacc] or ns_line != [want_ns]:
+        want_ns = ['::'.join(hits[0].scope)] if hits[0].scope else []   # global scope: no namespace at all
+        if member != [want] or accessor != [wantacc] or ns_line != want_ns:
             return [('wrong-encapsulee', f'member={member} accessor={accessor} namespace={ns_line} '
                                          f'expected {want}/{wantacc}/{want_ns} | {desc}')]
         return []
@@ -249,14 +248,14 @@ def judge_d(case):
 # ---------------------------------------------------------------------------------------------
 
 def cases():
-    for assign in itertools.product(KIND3, repeat=4):
-        for scope in ([], ['A'], ['A', 'B']):
+    for assign in itertools.product(KIND3, repeat=5):
+        for scope in ([], ['A'], ['A', 'B'], ['AB']):
             for spell in SPELL_X:
                 for direction, sem in (('provides', 'MTS'), ('requires', 'STS')):
                     yield {'kind': 'a', 'assign': list(assign), 'scope': scope, 'spell': spell,
                            'dir': direction, 'sem': sem}
-    for assign in itertools.product(KIND3, repeat=4):
-        for scope in ([], ['A'], ['A', 'B']):
+    for assign in itertools.product(KIND3, repeat=5):
+        for scope in ([], ['A'], ['A', 'B'], ['AB']):
             for spell in SPELL_X:
                 yield {'kind': 'b', 'assign': list(assign), 'scope': scope, 'spell': spell}
                 yield {'kind': 'b', 'assign': list(assign), 'scope': scope, 'spell': spell, 'dir': 'requires'}
@@ -266,7 +265,7 @@ def cases():
     for assign in itertools.product(KIND3, repeat=5):
         for spell in SPELL_R:
             yield {'kind': 'c', 'assign': list(assign), 'spell': spell}
-    for assign in itertools.product((False, True), repeat=4):
+    for assign in itertools.product((False, True), repeat=5):
         for spell in SPELL_D:
             yield {'kind': 'd', 'assign': list(assign), 'spell': spell}
 
@@ -340,11 +339,11 @@ def explore(ctx):
     if ctx.thorough:
         for part in pmap(lab_confirm, [(i, 48) for i in range(48)]):
             ctx.merge(part)
-    ctx.rule = ('(a) 3^4 placements of X x 3 component scopes x 5 spellings x {provides/MTS, requires/STS}; (b) 3^4 '
-                'placements of extern T x 3 interface scopes x 5 spellings x {provides, requires, multi-client, STS}; '
-                '(c) 3^5 placements of enum R x 5 spellings; (d) 2^4 component placements x 5 requested FQNs; '
+    ctx.rule = ('(a) 3^5 placements of X x 4 component scopes x 6 spellings x {provides/MTS, requires/STS}; (b) 3^5 '
+                'placements of extern T x 4 interface scopes x 6 spellings x {provides, requires, multi-client, STS}; '
+                '(c) 3^5 placements of enum R x 5 spellings; (d) 2^5 component placements x 6 requested FQNs; '
                 'exhaustive; non-trivial = at least one real declaration placed')
-    ctx.bounds = {'namespaces': ['<global>', 'A', 'A.B', 'C'], 'spellings': 5}
+    ctx.bounds = {'namespaces': ['<global>', 'A', 'A.B', 'C', 'AB'], 'spellings': 6}
     ctx.assumptions += ['types used by the generated code are read from the generated text in this check; that the '
                         'text compiles against distinct non-convertible mock types is confirmed by the lab checks',
                         'a formal type that resolves to a non-extern declaration is outside the well-formed domain: '
